@@ -12,7 +12,7 @@ from .nodekit import (NodeKit, trace, val_id, is_ctrl, VAL, ERR, ERRVAL, KIND, R
 
 MANIFEST_ENTRY = {
     'category': 'proof',
-    'text': "the real try/except/finally of the block node is executed with abstract children for any number of catch clauses and finally expressions: an error raised by a statement ends the statement part; catch clauses are consulted in order, a clause matches iff it is `catch all` or the error value equals (language ==) the evaluated clause value, the first match's expression is evaluated once and its value is the block's value, later clauses are not consulted; without a match the same error object propagates; finally expressions are evaluated in order exactly once after everything else on every exit kind (normal, control value, error caught, error uncaught, error raised by a handler) and do not replace the outcome; `error v` raises a runtime error carrying the evaluated operand; only CklRuntimeError is intercepted; the hosts (run, repl) catch exactly the two language exceptions; the parser builds a block only from its own statements, handlers and finally part: parse_block/parse_bare_block never modify a block a sub-parser returned (frame obligation on the abstract token stream)",
+    'text': "the real try/except/finally of the block node is executed with abstract children for any number of catch clauses and finally expressions: an error raised by a statement ends the statement part; catch clauses are consulted in order, a clause matches iff it is `catch all` or the error value equals (language ==) the evaluated clause value, the first match's expression is evaluated once and its value is the block's value, later clauses are not consulted; without a match the same error object propagates; finally expressions are evaluated in order exactly once after everything else on every exit kind (normal, control value, error caught, error uncaught, error raised by a handler) and do not replace the outcome; `error v` raises a runtime error carrying the evaluated operand; only CklRuntimeError is intercepted; the hosts (run, repl) catch exactly the two language exceptions; the parser builds a block only from its own statements, handlers and finally part: parse_block/parse_bare_block never modify a block a sub-parser returned (frame obligation on the abstract token stream); every node form with children passes a child's error on as the same error object and evaluates nothing after it (sweep over all node forms, eval, loops over inputs); stack exhaustion inside a call is a runtime error at the call; generated nests of depth <= 4 with an error of every kind injected at every statement position against a reference evaluator",
     'note': 'an error raised by a finally expression replaces the pending outcome (Python semantics; the property does not say otherwise); statement part, handler part and finally part are verified as separate units of the same method (each with its own loop contract)',
     'technique': 'deductive verification: pyvc VCs from the real AST with ghost event traces and loop contracts + z3; bounded program enumeration as cross-check',
 }
